@@ -18,7 +18,7 @@ SPEC = {
              "distinct molecules with >=2 atoms, >=1 bond and at least one non-identity attribute (charge, coordinate, bond type != 1)"),
     "assumptions": ["the scratch flag 'explored' may appear on the serializer's argument with value False (the property allows exactly that)"],
     "monitors_required": ["c12_canon", "c12_canon_repeat", "c12_serialize", "c12_history_compare"],
-    "required_obs": {"quick": ["cov_foreign_attributes_with_common_names", "cov_other_drawing_same_identity", "cov_charged", "cov_bond_types", "cov_multi_component", "cov_corpus", "cov_foreign_attribute"]},
+    "required_obs": {"quick": ["cov_noncontiguous_input_labels", "cov_foreign_attributes_with_common_names", "cov_other_drawing_same_identity", "cov_charged", "cov_bond_types", "cov_multi_component", "cov_corpus", "cov_foreign_attribute"]},
     "watchdog_s": {"quick": 900, "thorough": 3600},
 }
 PLAN = {
@@ -38,6 +38,12 @@ def _run_case(ctx, case):
     g0, mol = molprops.build_case_graph(case)
     for v, d in g0.nodes(data=True):
         d["_rv_foreign"] = ("note", v)  # a foreign attribute must be carried along too
+    if rng.random() < 0.2:
+        # atoms numbered sparsely / negatively (e.g. a fragment cut out of a larger graph): the result must still be a renaming onto 0..n-1
+        import networkx as nx
+        off = rng.choice([1, 100, -50, 10 ** 9])
+        g0 = nx.relabel_nodes(g0, {v: off + 3 * v for v in g0.nodes}, copy=True)
+        ctx.count("cov_noncontiguous_input_labels")
     g0.graph["_rv_graph_attr"] = "kept?"
     if rng.random() < 0.25:
         molprops.add_foreign_attributes(ctx, g0, rng)
